@@ -22,6 +22,7 @@ RULE = (
     "GeometricImage.convolve_with incl. declared parity. Non-trivial: g != e and base output not identically zero; "
     "distinct by option set."
 )
+RULE += " Also: realistic image sizes, filter reach beyond the extent on toroidal axes, per-axis dilation tuples, TORUS with image dilation."
 ASSUMPTIONS = [
     "reference action and reference convolution (self-tested)",
     "explicit padding pairs travel with their axis (lo/hi swap under an axis flip); only symmetric pairs are generated",
